@@ -233,7 +233,7 @@ def gen_cases(chk):
     defaults = real_default_tables()
     cases, asz, L = exhaustive_cases(chk.tier)
     maxlen = 10000 if chk.tier == "quick" else 100000
-    nrand = 120 if chk.tier == "quick" else 400
+    nrand = 500 if chk.tier == "quick" else 1500
     lens = []
     for i in range(nrand):
         m = chk.rng.below(6)
@@ -245,7 +245,7 @@ def gen_cases(chk):
             ln = 0
         lens.append(ln)
         cases.append(random_case(chk.rng, ln, defaults))
-    for i in range(20 if chk.tier == "quick" else 80):
+    for i in range(60 if chk.tier == "quick" else 240):
         cases.append(carry_case(chk.rng, chk.rng.range(10, 4000)))
     # every real default table once, each symbol coded with adaptation on (thorough: all; quick: a sample)
     dsel = defaults if chk.tier == "thorough" else [chk.rng.choice(defaults) for _ in range(300)] if defaults else []
